@@ -59,6 +59,29 @@ impl SimRing for i64 {
     }
 }
 
+impl SimRing for BigInt {
+    type Ref = Z;
+    const NAME: &'static str = "ZB";
+    fn from_json(v: &Value) -> Self {
+        BigInt::from(v.as_i64().unwrap())
+    }
+    fn ref_from_json(v: &Value) -> Z {
+        Z(big(v))
+    }
+    fn to_ref(&self) -> Z {
+        Z(self.clone())
+    }
+    fn ref_to_json(r: &Z) -> Value {
+        json!(r.0.to_i64().expect("reference value fits i64"))
+    }
+    fn ref_weight(r: &Z) -> f64 {
+        r.0.to_f64().unwrap().abs()
+    }
+    fn gen(rng: &mut Rng, kind: u32) -> Value {
+        <i64 as SimRing>::gen(rng, kind)
+    }
+}
+
 impl SimRing for Ratio<i64> {
     type Ref = Q;
     const NAME: &'static str = "Q";
@@ -118,6 +141,8 @@ macro_rules! ff_impl {
 }
 ff_impl!(2, "F2");
 ff_impl!(3, "F3");
+// a field with units other than +-1 and no coefficient growth (Q has the former, not the latter)
+ff_impl!(7, "F7");
 
 type ZH = Poly<'H', i64>;
 
@@ -205,9 +230,11 @@ macro_rules! dispatch_ring {
     ($name:expr, $f:ident, $($args:expr),*) => {
         match $name {
             "Z" => $f::<i64>($($args),*),
+            "ZB" => $f::<num_bigint::BigInt>($($args),*),
             "Q" => $f::<yui::Ratio<i64>>($($args),*),
             "F2" => $f::<yui::FF<2>>($($args),*),
             "F3" => $f::<yui::FF<3>>($($args),*),
+            "F7" => $f::<yui::FF<7>>($($args),*),
             "ZH" => $f::<yui::poly::Poly<'H', i64>>($($args),*),
             "ZI" => $f::<yui::GaussInt<i64>>($($args),*),
             other => panic!("unknown ring {other}"),
